@@ -16,7 +16,9 @@
    limit"), b6b6dd1 (phase-1 verdict threshold  eps * max(1, total initial infeasibility)  instead of
    an absolute eps) and 0767acf (_extract reports c . x of the returned point): _phase1 answers
    MAX_ITER when its inner _phase2 run was cut short with the auxiliary objective still below minus
-   that threshold, INFEASIBLE only when that run ended by itself. *)
+   that threshold, INFEASIBLE only when that run ended by itself; and 96ecc58 (every constraint row
+   and its right-hand side are divided by the row's largest absolute coefficient when the tableau is
+   built). *)
 From Coq Require Import List QArith Qabs Bool Arith.
 From SV Require Import C03.LPSpec.   (* dot: sum(cj * xj for cj, xj in zip(c, solution)) *)
 Import ListNotations.
@@ -280,10 +282,17 @@ Definition extract (T : tableau) (basis : list nat) (n : nat) (st : lp_status) (
   mkR st sol (Qred (dot c sol)) iters piv T basis.
 
 (* ---- def solve_lp(c, A, b, *, minimize=True, eps=1e-10, max_iter=100_000) *)
+(* Row equilibration (commit 96ecc58):  scale = max((abs(v) for v in A[i]), default=0.0) or 1.0 ;
+   the row's coefficients and its right-hand side are divided by it, the slack entry stays 1 *)
+Definition row_scale (r : list Q) : Q :=
+  let mx := fold_right (fun v acc => if Qltb acc (Qabs v) then Qabs v else acc) 0 r in
+  if Qeq_bool mx 0 then 1 else mx.
+Definition scaled_row (r : list Q) : list Q := map (fun v => v / row_scale r) r.
+
 Definition init_tableau (minimize : bool) (c : list Q) (A : list (list Q)) (b : list Q) : tableau :=
   let m := length b in
   let w := if minimize then c else map Qopp c in
-  mkT (mapi (fun i Ai => rnorm (Ai ++ unit_vec m i, nth i b 0)) (firstn m A))
+  mkT (mapi (fun i Ai => rnorm (scaled_row Ai ++ unit_vec m i, nth i b 0 / row_scale Ai)) (firstn m A))
       (map Qred w ++ zeros m, 0).
 
 Definition solve_lp (eps : Q) (minimize : bool) (max_iter : nat)
